@@ -218,9 +218,12 @@ CHECKS = {
              "CRLF), body_transport_invariant (the CRLF supplied by SMTP DATA framing does not change it), sign_keeps_body_and_part_headers, "
              "sign_adds_one_field, h_lists_signed_fields, body_alteration_changes_input, relaxed_header_canon_agrees (the relaxed header kernel is "
              "RFC 6376 3.4.2 on every well-formed field), relaxed_value_fold_invariant (re-folding a value does not change it), "
-             "signed_fields_input_agrees (the fields covered and their order are RFC 5.4.2's bottom-up selection for the h= list). The "
-             "DKIM-Signature field's own contribution to the header hash, and the simple header canonicalization, are not proved (the "
-             "latter is false of the code: known finding): they are decided per case by the RFC 6376 reader of Spec/DkimVerifier.lean applied to the "
+             "signed_fields_input_agrees (the fields covered and their order are RFC 5.4.2's bottom-up selection for the h= list), "
+             "sig_field_canon_agrees (the received DKIM-Signature field with the value of b= deleted and the field the signer hashed "
+             "with an empty b= have the same canonical form, whatever lettre's folding did to the two) and header_input_agrees_relaxed "
+             "(the signer's whole header hash input is what an RFC 6376 verifier computes; hypotheses: no ';' in the configuration's "
+             "strings, printable tag list, base64 signature text, fields in the shape lettre emits, unique names). The simple header "
+             "canonicalization is false of the code (known finding). Every case is also decided by the RFC 6376 reader of Spec/DkimVerifier.lean applied to the "
              "real emitted octets (and to the octets after DATA framing), whose two hash inputs must equal the signer's, observed through a "
              "hook and tied to the emitted bh= / b= with sha2 / rsa / ed25519-dalek verification primitives; removal of the signature field "
              "must give back the unsigned message; three alterations of protected octets per case must change a hash input. Correspondence: "
